@@ -554,7 +554,7 @@ package shell_operator
 //@   modifies nothing
 //@ package github.com/flant/shell-operator/pkg/shell-operator
 //@ func (*ShellOperator).taskHandleEnableKubernetesBindings
-//@   prop C03
+//@   prop C03, C06
 //@   inlines (*HookController).HandleEnableKubernetesBindings, (*ShellOperator).taskHandleEnableKubernetesBindings$1
 //@   requires op != nil && op.HookManager != nil && t != nil
 //@   ensures [sync-tasks-name-main] forall(i, 0, len(result.HeadTasks), dyntype(result.HeadTasks[i], *task.BaseTask) && result.HeadTasks[i].(*task.BaseTask) != nil && result.HeadTasks[i].(*task.BaseTask).QueueName == "main")
